@@ -746,9 +746,9 @@ class FeatureList(collections.UserList):
             for loc in ft.locs:
                 # Always true for maxsize values
                 # in case no start or stop index is given
-                if loc.start < stop and loc.stop > start:
+                if max(loc.start, start) < min(loc.stop, stop):
                     # The location is at least partly in the
-                    # given location range
+                    # given (non-empty) location range
                     defect = loc.defect
                     if loc.start < start:
                         defect |= Defect.MISS_LEFT
